@@ -480,6 +480,57 @@ def degenerate_scans(chk, sz, szr, scratch, rng, nrep):
         shutil.rmtree(d, ignore_errors=True)
 
 
+def huge_directory_case(chk, sz, szr, scratch, rng, nrep):
+    """Several repositories whose only commit has a root directory of > 128 KiB with the cited objects below subdirectories:
+    many short runs of both builds at every processor count must print the same bytes."""
+    d = os.path.join(scratch, "hugedirs")
+    os.makedirs(d)
+    try:
+        logdir = os.path.join(d, "race")
+        os.makedirs(logdir)
+        differing = 0
+        for k in range(3):
+            pool = G.Pool(rng)
+            tiny = pool.new_blob(1)
+            ents = [G.Entry(G.FILE, b"a-rather-long-file-name-number-%05d-in-a-huge-directory.dat" % j, pool.new_blob(2 + j % 3)) for j in range(2400 + 300 * k)]
+            ents += [G.Entry(G.TREE, b"k%03d" % j, G.Tree([G.Entry(G.FILE, b"f%d" % j, tiny)])) for j in range([8, 60, 200][k])]
+            deep = G.Tree([G.Entry(G.FILE, b"bottom", pool.new_blob(2))])
+            for j in range(7):
+                deep = G.Tree([G.Entry(G.TREE, b"l%d" % j, deep)])
+            ents += [G.Entry(G.TREE, b"m", G.Tree([G.Entry(G.FILE, b"big.bin", pool.new_blob(90000))])), G.Entry(G.TREE, b"deep", deep),
+                     G.Entry(G.TREE, b"wide", G.Tree([G.Entry(G.FILE, b"w%04d" % j, tiny) for j in range(3000)]))]
+            m = G.Model()
+            m.refs["refs/heads/main"] = G.Commit(G.Tree(ents), [], msg=b"huge\n")
+            gitdir = G.write_model(m, os.path.join(d, "h%d" % k))
+            r0 = R.sizer(sz, gitdir, ["-v", "--no-progress"], tmpdir=d)
+            chk.count()
+            if r0.rc != 0:
+                chk.violation("C17/huge-directory/run-failed", {"stderr": r0.err[-300:].decode("utf-8", "replace")})
+                continue
+            for j in range(nrep):
+                binary = szr if j % 5 == 4 else sz
+                env = {"GOMAXPROCS": ["16", "1", "2", "4", "8", "3"][j % 6], "GORACE": "halt_on_error=0 log_path=%s/race" % logdir}
+                r = R.sizer(binary, gitdir, ["-v", "--no-progress"], env=env, tmpdir=d, timeout=120)
+                chk.count()
+                if r.rc not in (0, 66) or r.timed_out:
+                    chk.violation("C17/huge-directory/run-failed", {"rc": r.rc, "stderr": r.err[-300:].decode("utf-8", "replace")})
+                elif r.out != r0.out:
+                    differing += 1
+                    chk.violation("C17/determinism/stdout-differs-from-reference-run/huge-directory",
+                                  {"gomaxprocs": env["GOMAXPROCS"], "first_diff": [x.decode("utf-8", "replace") for x in _first_diff(r0.out, r.out)]})
+            chk.nontrivial(("hugedir", k))
+        seen = set()
+        for blk in race_blocks(logdir):
+            sig = race_sig(blk)
+            chk.bump("race_reports")
+            if sig not in seen:
+                seen.add(sig)
+                chk.violation("C17/data-race/" + sig, {"report": blk[:3000], "case": "huge directory"})
+        chk.cov["huge_directory_case"] = {"repositories": 3, "runs_each": nrep, "runs_differing_from_reference": differing}
+    finally:
+        shutil.rmtree(d, ignore_errors=True)
+
+
 def failing_runs(chk, sz, szr, shimdir, scratch, rng, nrep):
     """Runs that fail are runs too: with a reference that points at a missing object (git for-each-ref dies), or a git child
     killed at a fixed byte of its output, every repetition - both builds, any processor count - ends the same way with the same
@@ -560,6 +611,7 @@ def run(chk, b, tier):
     partial_clone_case(chk, sz, scratch, random.Random("C17p|%d" % R.SEED))
     degenerate_scans(chk, sz, szr, scratch, random.Random("C17d|%d" % R.SEED), 6 if tier == "quick" else 40)
     failing_runs(chk, sz, szr, shimdir, scratch, random.Random("C17f|%d" % R.SEED), 6 if tier == "quick" else 30)
+    huge_directory_case(chk, sz, szr, scratch, random.Random("C17h|%d" % R.SEED), 20 if tier == "quick" else 100)
     for n_, k_, xr in ([(30000, 12, 0), (3000, 8, 6500)] if tier == "quick" else
                        [(30000, 24, 0), (120000, 24, 0), (400000, 12, 0), (3000, 40, 6500), (500, 40, 2100), (25000, 20, 30000)]):
         long_history_case(chk, sz, szr, scratch, random.Random("C17l|%d|%d" % (R.SEED, n_)), n_, k_, extra_refs=xr)
